@@ -1,5 +1,5 @@
 CONSTANTS
-  Rotations = {0, 9, 18, 26}
+  Rotations = {0, 9, 18, 27}
   Widths = {3}
   TransportSets = {{"grpc"}, {"rest"}, {"grpc", "rest"}}
   Namings = {"plain"}
